@@ -23,7 +23,7 @@ def decide(ctx, cases, *, model_share=1.0, known_key=None, fidelity=None, nontri
     returns result dict for check.py"""
     pid = ctx["pid"]
     t0 = time.time()
-    lres = pmap(lib_gdd, cases)
+    lres = pmap(lib_gdd, [{k: v for k, v in c.items() if k not in ('expect', 'expect_show')} for c in cases])
     viol = []
     known_hits = collections.Counter()
     strata = collections.Counter()
